@@ -12,6 +12,7 @@ import (
 	"github.com/hashicorp/consul/agent/consul/state"
 	"github.com/hashicorp/consul/agent/structs"
 	"github.com/hashicorp/consul/internal/verifmc/cmdlib"
+	"github.com/hashicorp/consul/internal/verifmc/ep"
 	"github.com/hashicorp/consul/internal/verifmc/ev"
 	"github.com/hashicorp/consul/internal/verifmc/world"
 )
@@ -355,6 +356,11 @@ func Run(c *ev.Ctx) {
 					}
 				}
 			}
+			// the same questions through the RPC endpoints a client reaches: Intention.Match, Intention.Check
+			// (local source, which is what that endpoint decides) and Intention.List
+			if pi == 0 || pi == len(perms)-1 {
+				lev += endpointReads(c, w, set, legacy, srcs, dsts, matchOut, viol)
+			}
 			if pi == 0 {
 				firstMatch = matchOut
 			} else {
@@ -421,7 +427,7 @@ func Run(c *ev.Ctx) {
 	c.Set("distinct_nontrivial", sets-rejected)
 	c.Set("distinct_outcome_classes", len(outcomes))
 	c.Set("max_set_size", maxK)
-	c.Set("rule", "every set of <=K intentions over sources {a,b,*}x{local,peer p1}, destinations {x,*}, actions {allow,deny,L7}; every write order (config-entry representation with incremental source lists; legacy rows when format is legacy); every (source in {a,b,c}, peer, destination in {x,y}, default) decided through IntentionMatchOne+IntentionDecision from both sides and compared with the reference precedence evaluator; match lists must be precedence-ordered and identical for all write orders")
+	c.Set("rule", "every set of <=K intentions over sources {a,b,*}x{local,peer p1}, destinations {x,*}, actions {allow,deny,L7}; every write order (config-entry representation with incremental source lists; legacy rows when format is legacy); every (source in {a,b,c}, peer, destination in {x,y}, default) decided through IntentionMatchOne+IntentionDecision from both sides and compared with the reference precedence evaluator; match lists must be precedence-ordered and identical for all write orders; for the first and last write order the same is asked through the RPC endpoints Intention.Match, Intention.Check (both default policies) and Intention.List on a Server value over that state")
 	keys := make([]string, 0, len(outcomes))
 	for k := range outcomes {
 		keys = append(keys, k)
@@ -442,4 +448,86 @@ func maxInt(a, b int) int {
 		return a
 	}
 	return b
+}
+
+// endpointReads asks the RPC endpoints. Intention.Check decides for a local source service; an intention
+// with L7 permissions counts as "not allowed" there (no request to evaluate).
+func endpointReads(c *ev.Ctx, w *world.World, set []ixn, legacy bool, srcs, dsts []string, matchOut map[string]string, viol func(sig, msg string)) int {
+	srv, err := ep.Open(w)
+	if err != nil {
+		c.HarnessError("endpoint server: " + err.Error())
+		return 0
+	}
+	defer srv.Close()
+	n := 0
+	ix := srv.VS.Intention()
+	for _, side := range []struct {
+		typ   structs.IntentionMatchType
+		names []string
+		tag   string
+	}{{structs.IntentionMatchDestination, dsts, "dst:"}, {structs.IntentionMatchSource, srcs, "src:"}} {
+		for _, name := range side.names {
+			var reply structs.IndexedIntentionMatches
+			err := ix.Match(&structs.IntentionQueryRequest{Datacenter: cmdlib.DC, Match: &structs.IntentionQueryMatch{Type: side.typ,
+				Entries: []structs.IntentionMatchEntry{{Namespace: "default", Name: name}}}}, &reply)
+			n++
+			if err != nil {
+				viol("C13:endpoint-match-error", err.Error())
+				continue
+			}
+			got := ""
+			if len(reply.Matches) == 1 {
+				got = render(reply.Matches[0])
+			} else if len(reply.Matches) != 0 {
+				viol("C13:endpoint-match-shape", fmt.Sprintf("Intention.Match for one entry returned %d lists", len(reply.Matches)))
+			}
+			if want := matchOut[side.tag+name]; got != want {
+				viol("C13:endpoint-match-differs-from-store:"+side.tag, fmt.Sprintf("Intention.Match(%s%s) = %q, the store's match list is %q", side.tag, name, got, want))
+			}
+		}
+	}
+	for _, dflt := range []bool{false, true} {
+		srv.VS.Srv.VerifConfig().DefaultIntentionPolicy = map[bool]string{false: "deny", true: "allow"}[dflt]
+		for _, s := range srcs {
+			for _, d := range dsts {
+				var reply structs.IntentionQueryCheckResponse
+				err := ix.Check(&structs.IntentionQueryRequest{Datacenter: cmdlib.DC, Check: &structs.IntentionQueryCheck{
+					SourceNS: "default", SourceName: s, DestinationNS: "default", DestinationName: d, SourceType: structs.IntentionSourceConsul}}, &reply)
+				n++
+				if err != nil {
+					viol("C13:endpoint-check-error", err.Error())
+					continue
+				}
+				wantAllow, wantPerms, win := refDecide(set, s, "", d, dflt)
+				if wantPerms {
+					wantAllow = false
+				}
+				if reply.Allowed != wantAllow {
+					wn := "default"
+					if win != nil {
+						wn = win.String()
+					}
+					viol(fmt.Sprintf("C13:endpoint-check-differs-from-precedence-rule:legacy=%v", legacy),
+						fmt.Sprintf("Intention.Check %s -> %s (default allow=%v) answers allowed=%v; the most specific matching intention for the local service %s is %s => allowed=%v",
+							s, d, dflt, reply.Allowed, s, wn, wantAllow))
+				}
+			}
+		}
+	}
+	var list structs.IndexedIntentions
+	err = ix.List(&structs.IntentionListRequest{Datacenter: cmdlib.DC, Legacy: false}, &list)
+	n++
+	if err != nil {
+		viol("C13:endpoint-list-error", err.Error())
+		return n
+	}
+	for k := 1; k < len(list.Intentions); k++ {
+		if list.Intentions[k-1].Precedence < list.Intentions[k].Precedence {
+			viol("C13:endpoint-list-not-in-precedence-order", fmt.Sprintf("Intention.List = %s", render(list.Intentions)))
+		}
+	}
+	if len(list.Intentions) != len(set) {
+		viol("C13:endpoint-list-incomplete", fmt.Sprintf("Intention.List returns %d intentions, %d were written: %s", len(list.Intentions), len(set), render(list.Intentions)))
+	}
+	return n
 }
